@@ -9,12 +9,14 @@ package util
 //@ pure inInt32(x int) bool = -2147483648 <= x && x <= 2147483647
 
 //@ func getClosest
+//@   params (val1, val2, target)
 //@   props C12
 //@   requires val1 < target && target < val2
 //@   ensures[C12.closer C01 C05 C07] (result == val1 || result == val2) && abs(result - target) <= abs(val1 - target) && abs(result - target) <= abs(val2 - target)
 //@   modifies nothing
 
 //@ func FindClosest
+//@   params (target, arr)
 //@   props C12
 //@   functional closestOf
 //@   overflow
@@ -31,6 +33,7 @@ package util
 //@     decreases j - i
 
 //@ opaque func sortSlice[int]
+//@   params (s)
 //@   ensures forall i, j :: 0 <= i && i < j && j < len(s) ==> s[i] <= s[j]
 //@   ensures forall i :: 0 <= i && i < len(s) ==> exists j :: 0 <= j && j < len(s) && old(s[j]) == s[i]
 //@   ensures forall j :: 0 <= j && j < len(s) ==> exists i :: 0 <= i && i < len(s) && s[i] == old(s[j])
@@ -39,6 +42,7 @@ package util
 //@   trusted "sort.Slice with the < comparator sorts ascending and permutes the elements"
 
 //@ func SortedKeys[int,int]
+//@   params (input)
 //@   props C12
 //@   ensures[asc]    strictlyAsc(result) && len(result) == len(input)
 //@   ensures[sound]  forall j :: 0 <= j && j < len(result) ==> result[j] in input
@@ -54,6 +58,7 @@ package util
 //@ pure runStart(m map[int]int, ks []int, i int) bool = i == 0 || m[ks[i-1]] != m[ks[i]]
 
 //@ func ExtractKeysWithDistinctValues
+//@   params (input)
 //@   props C12
 //@   requires forall k :: k in input ==> input[k] != -1
 //@   ensures[C12.asc C01 C05]    strictlyAsc(result)
@@ -122,16 +127,19 @@ package util
 //@   trusted "os.Stat returns exactly one of FileInfo / error; the FileInfo describes the named file; failures other than not-exist are possible"
 
 //@ opaque func ReadIntFromFile
+//@   params (path)
 //@   ensures err == nil ==> value == fileInt[path]
 //@   ensures lastReadFailed == (err != nil)
 //@   modifies lastReadFailed
 //@   trusted "I/O model: a successful read returns the integer content of the file; may fail at every call"
 //@ opaque func WriteIntToFile
+//@   params (value, path)
 //@   ensures result == nil && path in faithful ==> fileInt[path] == value
 //@   ensures forall p string :: p != path ==> fileInt[p] == old(fileInt)[p]
 //@   modifies fileInt
 //@   trusted "I/O model: a write may fail; on success a faithful file holds the value, any other file may ignore or alter it; no other path changes"
 //@ opaque func WriteIntToFileAtomic
+//@   params (value, path)
 //@   ensures result == nil && path in faithful ==> fileInt[path] == value
 //@   ensures forall p string :: p != path ==> fileInt[p] == old(fileInt)[p]
 //@   modifies fileInt
@@ -166,6 +174,7 @@ package util
 //@   effectfree
 //@   trusted "sleeping has no effect on program state"
 //@ func Coerce
+//@   params (value, min, max)
 //@   props C01 C04 C06
 //@   ensures[nan]   isnan(value) ==> isnan(result)
 //@   ensures[range] !isnan(value) && min <= max ==> min <= result && result <= max
@@ -178,6 +187,7 @@ package util
 //@ ghost var pidSteps int
 //@ pure clamp01(x float64) float64 = x > 1.0 ? 1.0 : (x < 0.0 ? 0.0 : x)
 //@ func (*PidLoop).Loop
+//@   params (p, target, measured)
 //@   props C01
 //@   ghostret lastPidOut := result
 //@   ghostdo pidSteps := pidSteps + 1
@@ -222,6 +232,7 @@ package util
 //@ pure permOK(p string) bool = statUid[p] == 0 && (statGid[p] == 0 || statMode[p] & 16 == 0) && statMode[p] & 2 == 0
 
 //@ func CheckFilePermissionsForExecution
+//@   params (filePath)
 //@   props C18 C19
 //@   returns (ok, err)
 //@   ensures[C18.iff]   (err == nil) == (filePath in resolveOK && resolvedPath[filePath] in statOK && permOK(resolvedPath[filePath]))
@@ -253,6 +264,7 @@ package util
 //@   trusted "os/exec: Output starts the process; the error may be of any dynamic type (*exec.ExitError, *exec.Error, *fs.PathError, context errors); it returns within deadline+WaitDelay only if the context has a deadline and WaitDelay > 0 (documented: with WaitDelay zero, Output waits until orphaned descendants close the pipes)"
 
 //@ func SafeCmdExecution
+//@   params (executable, args, timeout)
 //@   props C18 C19
 //@   returns (out, err)
 //@   ensures[C18.gate]     started[executable] != old(started)[executable] ==> executable in resolveOK && resolvedPath[executable] in statOK && permOK(resolvedPath[executable])
@@ -262,6 +274,7 @@ package util
 
 // ---- smoothing (C08, C10) ---------------------------------------------------------------------------
 //@ func UpdateSimpleMovingAvg
+//@   params (oldAvg, n, newValue)
 //@   props C08 C10
 //@   requires n >= 1 && n <= 1000000000
 //@   let bounded = fin(oldAvg) && fin(newValue) && abs(real(oldAvg)) <= 1.0e300 && abs(real(newValue)) <= 1.0e300 && (oldAvg == newValue || abs(real(oldAvg)) >= 1.0e-270 || abs(real(newValue)) >= 1.0e-270)
@@ -276,6 +289,7 @@ package util
 //@ pure stepsOK(m map[int]float64) bool = len(m) >= 1 && (forall k :: k in m ==> fin(m[k]) && 0.0 <= m[k] && m[k] <= 255.0 && -1000000 <= k && k <= 1000000)
 
 //@ func Ratio
+//@   params (target, rangeMin, rangeMax)
 //@   props C06 C07
 //@   requires fin(target) && fin(rangeMin) && fin(rangeMax) && rangeMin < rangeMax && rangeMin <= target && target <= rangeMax && abs(real(rangeMin)) <= 1.0e9 && abs(real(rangeMax)) <= 1.0e9
 //@   ensures[C06.unit C07] 0.0 <= result && result <= 1.0
@@ -296,6 +310,7 @@ package util
 //@ pure interpOf(m map[int]float64, x float64, r float64) bool = (forall k :: isMinKey(m, k) && x <= float64(k) ==> same(r, m[k])) && (forall k :: isMaxKey(m, k) && x >= float64(k) ==> same(r, m[k])) && (forall k :: k in m && x == float64(k) ==> same(r, m[k])) && (forall a, b :: adjacent(m, a, b) && float64(a) < x && x < float64(b) ==> same(r, lerp(m[a], m[b], x, float64(a), float64(b))))
 
 //@ func CalculateInterpolatedCurveValue
+//@   params (steps, interpolationType, input)
 //@   props C06
 //@   splitreturns
 //@   ghostret lastInterp := result
@@ -339,6 +354,7 @@ package util
 
 // ---- helpers of the start-up path (C15) --------------------------------------------------------------------
 //@ opaque func InterpolateLinearlyInt
+//@   params (data, start, stop)
 //@   ensures result != nil
 //@   modifies nothing
 //@   trusted "builds a new map from the given one; touches no device or ghost state (body not verified: its callee needs step preconditions that this caller meets only for the literal {0:0, 255:255})"
@@ -348,6 +364,7 @@ package util
 //@ ghost var segHiSnap int
 //@ ghost var segHitSnap bool
 //@ func lemmaInterpMonotone
+//@   params (steps, t1, t2)
 //@   props C07
 //@   requires stepsOK(steps) && fin(t1) && fin(t2)
 //@   atcall ghost CalculateInterpolatedCurveValue: segLoSnap := segLo
@@ -367,6 +384,7 @@ package util
 //@   modifies anything
 
 //@ func lemmaFindClosestMonotone
+//@   params (arr, t1, t2)
 //@   props C07
 //@   requires len(arr) >= 1 && len(arr) <= 1073741824 && strictlyAsc(arr)
 //@   requires inInt32(t1) && inInt32(t2) && (forall k :: 0 <= k && k < len(arr) ==> inInt32(arr[k]))
@@ -409,12 +427,14 @@ package util
 //@   trusted "strconv.Atoi returns the integer the decimal text denotes, or an error"
 
 //@ impl func ReadIntFromFile
+//@   params (path)
 //@   props C08 C05 C09
 //@   atcall ghost Atoi: rdText := s
 //@   ensures[C08.impl.read] err == nil ==> rdText == trimsp(fileContent[path]) && value == atoi(rdText)
 //@   modifies rdText
 
 //@ impl func WriteIntToFile
+//@   params (value, path)
 //@   props C05 C03 C09
 //@   let target = path in resolveOK && len(resolvedPath[path]) > 0 ? resolvedPath[path] : path
 // one write of the decimal text to the path (or its resolution) - or none at all if the file already holds that number
